@@ -31,6 +31,20 @@ def iroOp (ids : List Nat) : String :=
   let ok := (g.plans.filter fun p => kvGet (plansByRollappKey p.rollapp) t.byRollapp == some p.id).length
   s!"order={joinNat (g.plans.map (·.id))} last={t.lastPlanId} byrollapp={ok}"
 
+def iroOp! (s : String) : Option IroOp :=
+  match s.splitOn ":" with
+  | ["c", r] => some (.create (strBytes s!"r{r}_1-1") 0)
+  | ["u", id, b] => some (.update (nat! id) (nat! b))
+  | _ => none
+
+def iroOpsOp (ops : List String) : String :=
+  let s := iroRun (ops.filterMap iroOp!)
+  let t := importIro (exportIro s)
+  let ps := t.plans.map fun e =>
+    let r := String.ofList ((e.2.rollapp.drop 1).take 1 |>.map Char.ofNat)
+    s!"{e.2.id}:{r}:{e.2.body}:{(kvGet (plansByRollappKey e.2.rollapp) t.byRollapp).getD 0}"
+  s!"plans={if ps.isEmpty then "-" else ",".intercalate ps} last={t.lastPlanId} orig={s.lastPlanId}"
+
 -- ---------------------------------------------------------------- eibc
 def eibcOrder (k : Bytes) : DOrder := ⟨strBytes "o1", .pending, k, 0⟩
 
@@ -90,6 +104,22 @@ def streamsOp (now : Nat) (xs : List Item) : String :=
     match importStr now [] g1 with
     | none => "panic"
     | some s2 => refObs g1.streams s2.streams s2.lastStreamId
+
+/-- one write-path op of the stream store (`e` = BeforeEpochStart: every started upcoming stream, in walk order) -/
+def sop (s : RefStore) (tok : String) : RefStore :=
+  match tok.splitOn ":" with
+  | [now, "c", id, start, num, filled] => rsStep (nat! now) s (.create ⟨nat! id, nat! start, false, nat! num, nat! filled, 0⟩)
+  | [now, "e"] => (refIds s.upcoming).foldl (fun s id => rsStep (nat! now) s (.activate id)) s
+  | [now, "t", id] => rsStep (nat! now) s (.terminate (nat! id))
+  | [now, "u", id, num, filled] =>
+    match kvGet (nat! id) s.items with
+    | some x => rsStep (nat! now) s (.update { x with numEpochs := nat! num, filled := nat! filled })
+    | none => s
+  | _ => s
+
+def sopsOp (toks : List String) : String :=
+  let s := toks.foldl sop RefStore.empty
+  s!"U={joinNat (refIds s.upcoming)} A={joinNat (refIds s.active)} F={joinNat (refIds s.finished)}"
 
 -- ---------------------------------------------------------------- lockup
 def lock! (s : String) : Lock :=
@@ -151,6 +181,8 @@ def dymnsOp (bids offers : List Nat) : String :=
 def step (_ : Unit) (f : List String) : Unit × String :=
   ((), match f with
   | ["iro", ids] => iroOp ((list! ids).map nat!)
+  | ["iroops", ops] => iroOpsOp (list! ops)
+  | ["sops", ops] => sopsOp (list! ops)
   | ["eibckey", k] => eibcKeyOp (hex! k)
   | ["eibcdec", k] => eibcDecOp (hex! k)
   | ["da", st, ty] => daOp st ty
